@@ -85,6 +85,12 @@ SealZeroAad(rk, iv, nz, p, t) ==
       c == GCtr(rk, Inc(j0), p)
       s == GHash(H, PadToBlock(c) \o LenBlock(nz, Len(c)))
   IN c \o SubSeq(XorS(s, EK(rk, j0)), 1, t)
+\* The same for an IV of nz ZERO symbols (nz # StdIV): J0 = GHASH(0^nz padded || IVTail(nz)) = GHASH(IVTail(nz)).
+SealZeroIv(rk, nz, aad, p, t) ==
+  LET H == HashKey(rk)
+      j0 == IF nz = StdIV THEN Zeros(BS - 1) \o <<1>> ELSE GHash(H, IVTail(nz))
+      c == GCtr(rk, Inc(j0), p)
+  IN c \o Tag(rk, H, j0, aad, c, t)
 \* what counter-mode decryption of the body yields whether or not the tag matches (the bytes an
 \* implementation that decrypts before it has verified would have produced)
 Decrypted(rk, iv, ct, t) ==
